@@ -170,11 +170,12 @@ CEnd == /\ IsEvent("ModelEnd") /\ Ev.tid \in W
         /\ loaded' = loaded \cup Range(Pairs(Ev.pts, Ev.vals))     \* what the model returned for these points
         /\ UNCHANGED <<cfg, mgrv, stored, launched, x, y, flag, syncv, pcm, cid, anyDone, pcw, race>>
 
-\* the grid content must be among the returned values
+\* the grid content: stored values go to `loaded` (must be among the returned values, at their points),
+\* the values of the surrogate at the loaded points go to `stored`
 CFinal == /\ IsEvent("Final")
           /\ loaded' = loaded \cup {[p |-> Ev.pairs[i][1], v |-> Ev.pairs[i][2]] : i \in 1..Len(Ev.pairs)}
-                              \cup {[p |-> Ev.pairs[i][1], v |-> Ev.pairs[i][3]] : i \in 1..Len(Ev.pairs)}
-          /\ UNCHANGED <<cfg, mgrv, stored, launched, x, y, flag, syncv, pcm, cid, anyDone, pcw, ghostv, race>>
+          /\ stored' = [i \in 1..Len(Ev.pairs) |-> [p |-> Ev.pairs[i][1], v |-> Ev.pairs[i][3]]]
+          /\ UNCHANGED <<cfg, mgrv, launched, x, y, flag, syncv, pcm, cid, anyDone, pcw, ghostv, race>>
 
 COther == /\ More /\ Ev.e \notin {"Reset", "ModelBegin", "ModelEnd", "Final"}
           /\ l' = l + 1 /\ UNCHANGED vars
@@ -184,5 +185,7 @@ CSpec == TInit /\ [][CNext]_tvars
 CAtMostOnce == cfg.nw > 0 => AtMostOnce
 CBudgetOK == cfg.nw > 0 => BudgetOK
 CNoSameThreadConcurrent == cfg.nw > 0 => NoSameThreadConcurrent
-CValueAtItsPoint == cfg.nw > 0 => ValueAtItsPoint
+CValueAtItsPoint == cfg.nw > 0 => (\A r \in loaded : r.v = r.p) /\ (\A r, q \in loaded : r.p = q.p => r = q)
+\* the final surrogate reproduces the model at all loaded points
+CSurrogateReproduces == cfg.nw > 0 => \A i \in 1..Len(stored) : stored[i].v = stored[i].p
 =============================================================================
